@@ -26,7 +26,8 @@ RULE = (
     "O-CSS + O-WCAG + the Python API). Non-trivial: sheets with >= 1 adjusted rule and one of {custom property use, nesting, "
     "non-default background, --premium, non-hex spelling}; distinct by (sheet, settings). Sheets in which one custom property "
     "is shared by several rules are excluded by construction from the main campaign (known finding F6) and exercised in a "
-    "small dedicated campaign."
+    "small dedicated campaign. A directory campaign runs 2-3 sheets in one invocation (one sheet defines custom properties that "
+    "another uses without defining them) and judges every file's cards against that file's own output."
 )
 ASSUMPTIONS = [
     "tinycss2's tokenizer decides what the written file means; var() is resolved with CSS semantics against the file's own :root/html rules",
@@ -143,31 +144,29 @@ def pair_strings(rule, props, default_bg):
 
 
 def judge(case):
-    from cm_colors import ColorPair
-
-    css, settings = case["css"], case["settings"]
+    """One CLI run over one stylesheet (case["css"]) or over a directory of several (case["files"], case["target"])."""
+    settings = case["settings"]
     mode, premium, dbg = settings.get("mode", 1), bool(settings.get("premium")), settings.get("default_bg")
-    target = 7.0 if premium else 4.5
-    fname = case.get("fname", "s.css")
-    nf_in = osh.normal(css)
-    if osh.has_error(nf_in):
-        raise HarnessError(f"generated sheet does not parse cleanly: {css!r}")
-    run = cli.run_cli({fname: css}, fname, settings)
-    what = f"sheet {css!r} settings {settings}"
+    if "files" in case:
+        files, target = dict(case["files"]), case["target"]
+    else:
+        files, target = {case.get("fname", "s.css"): case["css"]}, case.get("fname", "s.css")
+    what = f"files {files!r} target {target!r} settings {settings}" if "files" in case else f"sheet {case['css']!r} settings {settings}"
+    nf_ins = {}
+    for rel, css in files.items():
+        nf_ins[rel] = osh.normal(css)
+        if osh.has_error(nf_ins[rel]):
+            raise HarnessError(f"generated sheet does not parse cleanly: {css!r}")
+    if len({os.path.basename(r) for r in files}) != len(files):
+        raise HarnessError("generated tree has two files with the same base name")
+    run = cli.run_cli(files, target, settings)
     if run["exit"] != 0 or run["exception"]:
         raise Violation("cli-failed", f"cm-colors exited {run['exit']} ({run['exception']}); stderr {run['stderr'][-300:]!r}; {what}")
     if "Error processing" in run["stderr"]:
         raise Violation("cli-error-processing-valid-sheet", f"cm-colors could not process a valid stylesheet: {run['stderr'].strip().splitlines()[0]!r}; {what}")
-    out_rel = cli.out_name(fname)
-    if out_rel not in run["texts"]:
-        raise Violation("no-output-file", f"{out_rel} was not written; stdout {run['stdout']!r}; {what}")
-    out_css = run["texts"][out_rel].decode("utf-8")
-    nf_out = osh.normal(out_css)
-    props_in, props_out = osh.custom_properties(nf_in), osh.custom_properties(nf_out)
-    coloured = coloured_rules(nf_in)
-    col_ids = [rid for rid, _ in coloured]
     counts, cards = run["counts"], run["cards"]
-    N = len(coloured)
+    coloured = {rel: coloured_rules(nf) for rel, nf in nf_ins.items()}
+    N = sum(len(v) for v in coloured.values())
     # If the command's wording or the report template changed, the observation points cannot be read: that is a
     # harness problem (exit 2), never a verdict on the code.
     if not counts["recognised"] or (N > 0 and not counts["summary_seen"]):
@@ -175,6 +174,70 @@ def judge(case):
     rep = run["texts"].get(cli.REPORT)
     if rep is not None and not cards and b"card" not in rep:
         raise HarnessError("report template not recognised (no cards found)")
+
+    # 1. accounting (over the whole run) -------------------------------------------------------------------------
+    if counts["readable"] + counts["adjusted"] + counts["attention"] != N:
+        raise Violation("accounting-sum", f"{N} rules have a text colour but readable+adjusted+attention = {counts['readable']}+{counts['adjusted']}+{counts['attention']}; stdout {run['stdout']!r}; {what}")
+    if counts["adjusted"] != len(cards):
+        raise Violation("accounting-cards", f"{counts['adjusted']} pairs reported adjusted but the report has {len(cards)} cards; {what}")
+    if counts["attention"] != len(counts["listed"]):
+        raise Violation("accounting-listed", f"{counts['attention']} pairs need attention but {len(counts['listed'])} are listed; stdout {run['stdout']!r}; {what}")
+    basenames = {os.path.basename(rel): rel for rel in files}
+    for c in cards:
+        if c["file"] not in basenames:
+            raise Violation("card-for-unknown-file", f"report card names file {c['file']!r}; {what}")
+    for f, _ in counts["listed"]:
+        if f not in basenames:
+            raise Violation("listed-wrong-file", f"failure listed under file {f!r}, expected one of {sorted(basenames)}; {what}")
+
+    tot = {"A": 0, "F": 0, "R": 0, "unjudged": 0, "shared": False}
+    for rel, css in files.items():
+        base = os.path.basename(rel)
+        out_rel = cli.out_name(rel)
+        if out_rel not in run["texts"]:
+            raise Violation("no-output-file", f"{out_rel} was not written; stdout {run['stdout']!r}; {what}")
+        out_css = run["texts"][out_rel].decode("utf-8")
+        cards_f = [c for c in cards if c["file"] == base]
+        listed_f = [sel for f, sel in counts["listed"] if f == base]
+        r = _judge_file(rel, nf_ins[rel], out_css, coloured[rel], cards_f, listed_f, mode, premium, dbg, what)
+        for k in ("A", "F", "R", "unjudged"):
+            tot[k] += r[k]
+        tot["shared"] = tot["shared"] or r["shared"]
+    if tot["R"] != counts["readable"]:
+        raise Violation("accounting-readable", f"{counts['readable']} counted readable but {tot['R']} rules are neither adjusted nor listed; {what}")
+
+    allcss = "\n".join(files.values())
+    feats = []
+    if "var(" in allcss:
+        feats.append("custom-property")
+    if "@media" in allcss.lower() or "@supports" in allcss.lower():
+        feats.append("nesting")
+    if dbg is not None:
+        feats.append("default-bg")
+    if premium:
+        feats.append("premium")
+    if any(k in allcss.lower() for k in ("rgb(", "hsl(", "rgba(")):
+        feats.append("non-hex")
+    if len(files) > 1:
+        feats.append("directory-run")
+    nt = (str(sorted(files.items())), str(settings)) if (tot["A"] >= 1 and feats) else None
+    cls = [f"adjusted:{min(tot['A'], 3)}", f"attention:{min(tot['F'], 3)}", f"readable:{min(tot['R'], 3)}"] + [f"feat:{f}" for f in feats]
+    if tot["shared"]:
+        cls.append("has-shared-var")
+    if tot["unjudged"]:
+        cls.append("readable-rule-unjudged")
+    return {"nt": nt, "cls": cls, "sample": {"files": files, "settings": settings, "counts": {k: counts[k] for k in ("readable", "adjusted", "attention")},
+                                             "cards": [{"file": c["file"], "selector": c["selector"], "before": c["codes"][0], "after": c["codes"][1]} for c in cards[:3]]}}
+
+
+def _judge_file(rel, nf_in, out_css, coloured, cards, listed, mode, premium, dbg, what):
+    from cm_colors import ColorPair
+
+    target = 7.0 if premium else 4.5
+    what = f"file {rel}: " + what
+    nf_out = osh.normal(out_css)
+    props_in, props_out = osh.custom_properties(nf_in), osh.custom_properties(nf_out)
+    col_ids = [rid for rid, _ in coloured]
     shared = shared_vars(nf_in)
 
     def tag(rule):
@@ -184,26 +247,14 @@ def judge(case):
         bn = osh.var_name_of(bd[2]) if bd else None
         return ":shared-var" if (vn and vn[0] in shared) or (bn and bn[0] in shared) else ""
 
-    # 1. accounting ------------------------------------------------------------------------------------------
-    if counts["readable"] + counts["adjusted"] + counts["attention"] != N:
-        raise Violation("accounting-sum", f"{N} rules have a text colour but readable+adjusted+attention = {counts['readable']}+{counts['adjusted']}+{counts['attention']}; stdout {run['stdout']!r}; {what}")
-    if counts["adjusted"] != len(cards):
-        raise Violation("accounting-cards", f"{counts['adjusted']} pairs reported adjusted but the report has {len(cards)} cards; {what}")
-    if counts["attention"] != len(counts["listed"]):
-        raise Violation("accounting-listed", f"{counts['attention']} pairs need attention but {len(counts['listed'])} are listed; stdout {run['stdout']!r}; {what}")
     A = ids_from_selectors([c["selector"] for c in cards], coloured)
-    F = ids_from_selectors([s for _, s in counts["listed"]], coloured)
+    F = ids_from_selectors(listed, coloured)
     for rid in A + F:
         if rid not in col_ids:
             raise Violation("reported-rule-unknown", f"reported selector {rid} is not a rule with a text colour; {what}")
     if len(set(A)) != len(A) or len(set(F)) != len(F) or set(A) & set(F):
         raise Violation("rule-in-two-categories", f"adjusted {A} / attention {F} overlap or repeat; {what}")
-    for f, _ in counts["listed"]:
-        if f != os.path.basename(fname):
-            raise Violation("listed-wrong-file", f"failure listed under file {f!r}, expected {fname!r}")
     Rset = [rid for rid in col_ids if rid not in A and rid not in F]
-    if len(Rset) != counts["readable"]:
-        raise Violation("accounting-readable", f"{counts['readable']} counted readable but {len(Rset)} rules are neither adjusted nor listed; {what}")
     by_in, by_out = all_rules_by_id(nf_in), all_rules_by_id(nf_out)
 
     # 2. adjusted rules -----------------------------------------------------------------------------------------
@@ -278,25 +329,7 @@ def judge(case):
         if rout is None or frozen(rout) != frozen(rin):
             raise Violation("attention-rule-changed" + tag(rin), f"rule {rid} is listed as needing attention but its declarations changed: {rin[2]} -> {rout[2] if rout else None}; {what}")
 
-    feats = []
-    if "var(" in css:
-        feats.append("custom-property")
-    if "@media" in css.lower() or "@supports" in css.lower():
-        feats.append("nesting")
-    if dbg is not None:
-        feats.append("default-bg")
-    if premium:
-        feats.append("premium")
-    if any(k in css.lower() for k in ("rgb(", "hsl(", "rgba(")):
-        feats.append("non-hex")
-    nt = (css, str(settings)) if (len(A) >= 1 and feats) else None
-    cls = [f"adjusted:{min(len(A), 3)}", f"attention:{min(len(F), 3)}", f"readable:{min(len(Rset), 3)}"] + [f"feat:{f}" for f in feats]
-    if shared:
-        cls.append("has-shared-var")
-    if unjudged:
-        cls.append("readable-rule-unjudged")
-    return {"nt": nt, "cls": cls, "sample": {"css": css, "settings": settings, "counts": {k: counts[k] for k in ("readable", "adjusted", "attention")},
-                                             "cards": [{"selector": c["selector"], "before": c["codes"][0], "after": c["codes"][1]} for c in cards[:3]]}}
+    return {"A": len(A), "F": len(F), "R": len(Rset), "unjudged": unjudged, "shared": bool(shared)}
 
 
 def strategy_factory(knobs):
@@ -321,6 +354,28 @@ def m_shared_var(subname, bucket, case):
 
 
 MATCHERS = {"shared-custom-property": m_shared_var}
+
+
+@st.composite
+def directory_case(draw):
+    """Two or three sheets in one directory run. One sheet defines custom properties in :root that ANOTHER sheet uses
+    without defining them (custom properties do not cross files: there they are undefined), and both use the same names."""
+    knobs = {"shared_vars": False}
+    n = draw(st.sampled_from([2, 2, 3]))
+    names = draw(st.lists(st.sampled_from(["a.css", "b.css", "main.css", "theme.css", "z.css", "0.css"]), min_size=n, max_size=n, unique=True))
+    dirs = draw(st.lists(st.sampled_from(["site", "site", "site/sub"]), min_size=n, max_size=n))
+    files = {}
+    for nm, d in zip(names, dirs):
+        files[f"{d}/{nm}"] = draw(sheets.sheet(knobs=knobs, max_rules=3))["css"]
+    rels = sorted(files)
+    if draw(st.integers(0, 3)) > 0:
+        a, b = rels[0], rels[1]
+        if draw(st.booleans()):
+            a, b = b, a
+        g = draw(st.integers(100, 160))
+        files[a] += f"\n:root {{ --xf: #{g:02x}{g:02x}{g:02x}; --xb: #101010; }}\n.r80 {{ color: var(--xf); }}\n"
+        files[b] += "\n.r90 { color: var(--xf, #777777); background-color: var(--xb, #ffffff); }\n.r91 { color: var(--xf); }\n.r92 { color: #8c8c8c; background-color: var(--xb, #fafafa); }\n"
+    return {"files": files, "target": "site", "settings": draw(sheets.cli_settings())}
 
 
 @st.composite
@@ -378,6 +433,7 @@ def subchecks(tier):
     main_knobs = {"shared_vars": False}
     subs = [
         Hyp("sheets-main", strategy_factory(main_knobs), judge, examples=1600 if q else 48000),
+        Hyp("sheets-directory-run", directory_case, judge, examples=480 if q else 12000),
         Hyp("sheets-shared-custom-property", strategy_factory({"shared_vars": True}), judge, examples=240 if q else 4000),
         Hyp("sheets-shared-f6-template", f6_template, judge, examples=64 if q else 640, shards=8),
     ]
